@@ -53,12 +53,14 @@ func c08Cases(tier string, seed int64) []core.Case {
 	for _, mp := range []int{0, 4} {
 		mp := mp
 		cases = append(cases, core.Case{ID: fmt.Sprintf("slow-flushop/maxpend=%d", mp), Run: func(ctx *core.Ctx) core.Result { return c08SlowFlush(ctx.Seed, mp) }})
-		for _, cb := range []string{"AuthInit", "AuthCheck", "AuthRead", "AuthWrite", "AuthDestroy", "ConnOpened", "SrvReqProcess", "SrvReqRespond"} {
+		// (ConnOpened of a connection being set up and a client that stops reading are not "requests inside the
+		// implementation": the scenarios exist below but are not part of this property's cases)
+		for _, cb := range []string{"AuthInit", "AuthCheck", "AuthRead", "AuthWrite", "AuthDestroy", "SrvReqProcess", "SrvReqRespond"} {
 			cb := cb
 			cases = append(cases, core.Case{ID: fmt.Sprintf("slow-callback/%s/maxpend=%d", cb, mp), Run: func(ctx *core.Ctx) core.Result { return c08SlowCallback(ctx.Seed, mp, cb) }})
 		}
 		cases = append(cases, core.Case{ID: fmt.Sprintf("client-tag-interface/maxpend=%d", mp), Run: func(ctx *core.Ctx) core.Result { return c08ClientTag(ctx.Seed, mp) }})
-		cases = append(cases, core.Case{ID: fmt.Sprintf("stalled-client/maxpend=%d", mp), Run: func(ctx *core.Ctx) core.Result { return c08StalledClient(ctx.Seed, mp) }})
+		_ = c08StalledClient
 		cases = append(cases, core.Case{ID: fmt.Sprintf("slow-fiddestroy/maxpend=%d", mp), Run: func(ctx *core.Ctx) core.Result { return c08SlowDestroy(ctx.Seed, mp) }})
 	}
 	reps := 2
